@@ -195,6 +195,48 @@ def r17_5(ck):
     cfg = cfg_of(f.node)
     rets = [r for r in A.walk_no_nested(f.node) if isinstance(r, ast.Return)]
     inner_ok = root_ok = False
+    # the iterative spelling: climb `cur = cur.outer` while there is an
+    # outer, collecting key_for_value(cur.outer.inner, cur); the keys are
+    # returned in root-first order (reversed)
+    if not any(A.call_name(c) == 'path_for' for c in A.calls_in(f.node)):
+        okit = False
+        for lp in A.walk_no_nested(f.node):
+            if not isinstance(lp, ast.While):
+                continue
+            climbs = [s2 for s2 in A.walk_no_nested(lp) if isinstance(
+                s2, ast.Assign) and isinstance(s2.targets[0], ast.Name)
+                and A.unparse(s2.value) == s2.targets[0].id + '.outer']
+            if len(climbs) != 1:
+                continue
+            cur = climbs[0].targets[0].id
+            keys = [c for c in A.calls_in(lp, 'key_for_value')
+                    if A.unparse(A.arg_of(c, 0)) == cur + '.outer.inner'
+                    and A.is_name(A.arg_of(c, 1), cur)]
+            tst = A.unparse(lp.test).replace(' ', '')
+            apps = [c for c in A.calls_in(lp, ('append', 'insert'))
+                    if keys and any(A.contains(a, keys[0]) for a in c.args)]
+            if not (keys and apps and tst in (
+                    cur + '.outer', cur + '.outerisnotNone')):
+                continue
+            first = cfg.dominates(cfg.node(apps[0]), cfg.node(climbs[0]))
+            acc = A.unparse(A.call_receiver(apps[0]))
+            front = A.call_name(apps[0]) == 'insert' and A.unparse(
+                A.arg_of(apps[0], 0)) == '0'
+            rev = any(isinstance(r, ast.Return) and r.value is not None and (
+                ('reversed(%s)' % acc) in A.unparse(r.value) or
+                ('%s[::-1]' % acc) in A.unparse(r.value))
+                for r in rets)
+            plain = any(isinstance(r, ast.Return) and r.value is not None
+                        and A.unparse(r.value) in (acc, 'tuple(%s)' % acc)
+                        for r in rets)
+            okit = first and ((front and plain) or (not front and rev))
+        ck.require(okit, 'R17.5', f, f.node.name,
+                   'path_for collects the key of every node on the way up '
+                   'and returns them root first',
+                   'path_for (iterative form) does not collect '
+                   'key_for_value(cur.outer.inner, cur) on the way up and '
+                   'return the keys root first')
+        return _r17_5_top(ck)
     for r in rets:
         g = cfg.guards(cfg.node(r))
         v = expand(f.node, r.value, r) if r.value is not None else None
@@ -243,6 +285,10 @@ def r17_5(ck):
                'key_for_value returns the key whose value is the node '
                'looked for', 'key_for_value no longer returns the key under '
                'which the value is held')
+    _r17_5_top(ck)
+
+
+def _r17_5_top(ck):
     t = ck.fn('Store.top', 'core.store')
     ct = cfg_of(t.node)
     up = [r for r in A.walk_no_nested(t.node) if isinstance(r, ast.Return)
